@@ -208,6 +208,39 @@ static Json doForEach(const Json &arg)
   return o;
 }
 
+// two sequences / extents used alternately by one thread
+static Json doInterleave3(const Json &arg)
+{
+  Json o = Json::object();
+  const vec3sz d = v3sz(arg["d"]), e = v3sz(arg["e"]);
+  const vec3i di = v3i(arg["d"]), ei = v3i(arg["e"]);
+  index_sequence_3D sd(d), se(e);
+  Json itd = Json::array(), ite = Json::array();
+  auto a = sd.begin(), b = se.begin();
+  const auto ae = sd.end(), be = se.end();
+  size_t guard = 0;
+  while ((a != ae || b != be) && guard++ < 100000) {
+    if (a != ae) { itd.push(j3(*a)); ++a; }
+    if (b != be) { ite.push(j3(*b)); b++; }
+  }
+  o.set("iter_d", itd);
+  o.set("iter_e", ite);
+  Json fd = Json::array(), fe = Json::array(), xd = Json::array(), xe = Json::array();
+  Json rd = Json::array(), re = Json::array(), cd = Json::array(), ce = Json::array();
+  const size_t nd = arg["coords_d"].size(), ne = arg["coords_e"].size();
+  for (size_t k = 0; k < std::max(nd, ne); ++k) {
+    if (k < nd) { fd.push((long long)sd.flatten(v3sz(arg["coords_d"][k]))); xd.push((long long)longIndex(v3i(arg["coords_d"][k]), di)); }
+    if (k < ne) { fe.push((long long)se.flatten(v3sz(arg["coords_e"][k]))); xe.push((long long)longIndex(v3i(arg["coords_e"][k]), ei)); }
+    if (k < nd) { rd.push(j3(sd.reshape(k))); cd.push(j3(coordsOf(k, di))); }
+    if (k < ne) { re.push(j3(se.reshape(k))); ce.push(j3(coordsOf(k, ei))); }
+  }
+  o.set("flatten_d", fd); o.set("flatten_e", fe);
+  o.set("index_d", xd);   o.set("index_e", xe);
+  o.set("reshape_d", rd); o.set("reshape_e", re);
+  o.set("coords_d", cd);  o.set("coords_e", ce);
+  return o;
+}
+
 // ---------------------------------------------------------------------------
 // index maps on huge extents (limb numbers)
 // ---------------------------------------------------------------------------
@@ -367,6 +400,9 @@ static IntArr build(const Json &e, Keep &keep)
   if (k == "acc") {
     const std::string &t = e["t"].str();
     if (t == "u8") return buildAcc<unsigned char>(e["of"], keep);
+    if (t == "i8") return buildAcc<signed char>(e["of"], keep);
+    if (t == "u16") return buildAcc<unsigned short>(e["of"], keep);
+    if (t == "i64") return buildAcc<long long>(e["of"], keep);
     if (t == "i16") return buildAcc<short>(e["of"], keep);
     if (t == "f32") return buildAcc<float>(e["of"], keep);
     if (t == "f64") return buildAcc<double>(e["of"], keep);
@@ -411,6 +447,15 @@ static Json doView(const Json &arg, bool probes)
   Keep keep;
   IntArr a = build(arg["e"], keep);
   describe(*a, o, "vsize", "vn", "table", "vrange");
+  if (probes) {
+    // ActualArray3D::indexOf for every cell, in the order of the leaf's cell list
+    Keep keep2;
+    std::shared_ptr<ActualArray3D<int>> leaf = buildLeaf<int>(arg["e"], keep2);
+    Json ix = Json::array();
+    for (size_t k = 0; k < arg["e"]["cells"].size(); ++k)
+      ix.push((long long)leaf->indexOf(v3i(arg["e"]["cells"][k][(size_t)0])));
+    o.set("index_of", ix);
+  }
   if (arg.has("probes")) {
     // get() at the given coordinates, inside or outside size()
     Json c = Json::array();
@@ -441,29 +486,109 @@ static Json doRanges(const Json &arg)
 }
 
 // ---------------------------------------------------------------------------
-// the world: one ActualArray3D<int> and views of it that live as long as it does
+// the world: one ActualArray3D<T> and views of it that live as long as it does.
+// Element type variants map the model's integers injectively onto values of T:
+//   arithmetic T: the number itself;  structs of 3 / 12 / 24 bytes: a value derived from the
+//   number in every member (a torn or partially copied element maps back to "corrupt").
 // ---------------------------------------------------------------------------
-struct World
+struct B3 { unsigned char a, b, c; };                        // 3 bytes
+struct B24 { double d; long long i; char s[8]; };            // 24 bytes
+static const long long CORRUPT = -999999;
+
+template <typename T> struct Elem
 {
-  std::shared_ptr<ActualArray3D<int>> arr;
-  std::shared_ptr<std::vector<int>> ext;
-  std::map<std::string, IntArr> views;
+  static const bool arith = true;
+  static T to(long long v) { return (T)v; }
+  static long long from(const T &t) { return (long long)t; }
+};
+template <> struct Elem<vec3f>
+{
+  static const bool arith = false;
+  static vec3f to(long long v) { return vec3f((float)v, (float)v + 0.5f, -(float)v); }
+  static long long from(const vec3f &t)
+  {
+    const long long v = (long long)t.x;
+    return (t.x == (float)v && t.y == (float)v + 0.5f && t.z == -(float)v) ? v : CORRUPT;
+  }
+};
+template <> struct Elem<B3>
+{
+  static const bool arith = false;
+  static B3 to(long long v) { B3 b; b.a = (unsigned char)v; b.b = (unsigned char)(v ^ 0x5A); b.c = (unsigned char)(255 - v); return b; }
+  static long long from(const B3 &t) { return (t.b == (unsigned char)(t.a ^ 0x5A) && t.c == (unsigned char)(255 - t.a)) ? t.a : CORRUPT; }
+};
+template <> struct Elem<B24>
+{
+  static const bool arith = false;
+  static B24 to(long long v) { B24 b; b.d = v + 0.25; b.i = -v; for (int k = 0; k < 8; ++k) b.s[k] = (char)(v + k); return b; }
+  static long long from(const B24 &t)
+  {
+    const long long v = -t.i;
+    if (t.d != v + 0.25) return CORRUPT;
+    for (int k = 0; k < 8; ++k) if (t.s[k] != (char)(v + k)) return CORRUPT;
+    return v;
+  }
+};
+
+struct IWorld
+{
+  virtual ~IWorld() {}
+  virtual Json step(const std::string &a, const Json &arg) = 0;
+};
+
+template <typename T, bool ARITH> struct RangeOf;      // getValueRange only exists for ordered element types
+template <typename T> struct RangeOf<T, true>
+{
+  static void whole(const Array3D<T> &a, Json &o, const char *k) { o.set(k, rangeJson(a.getValueRange())); }
+  static void region(const Array3D<T> &a, const vec3i &lo, const vec3i &hi, Json &o, const char *k) { o.set(k, rangeJson(a.getValueRange(lo, hi))); }
+};
+template <typename T> struct RangeOf<T, false>
+{
+  static void whole(const Array3D<T> &, Json &o, const char *k) { o.set(k, "not available for this element type"); }
+  static void region(const Array3D<T> &, const vec3i &, const vec3i &, Json &o, const char *k) { o.set(k, "not available for this element type"); }
+};
+
+template <typename T>
+struct TWorld : IWorld
+{
+  typedef std::shared_ptr<Array3D<T>> Arr;
+  typedef Elem<T> E;
+  std::shared_ptr<ActualArray3D<T>> arr;
+  std::shared_ptr<std::vector<T>> ext;
+  std::map<std::string, Arr> views;
   std::shared_ptr<Array3D<double>> accView;
 
-  World(const Json &) {}
+  static void table(const Array3D<T> &a, Json &o, const char *ksize, const char *kn, const char *ktable)
+  {
+    const vec3i s = a.size();
+    o.set(ksize, j3(s));
+    o.set(kn, (long long)a.numElements());
+    Json t = Json::array();
+    for (int z = 0; z < s.z; ++z)
+      for (int y = 0; y < s.y; ++y)
+        for (int x = 0; x < s.x; ++x)
+          t.push(E::from(a.get(vec3i(x, y, z))));
+    o.set(ktable, t);
+  }
 
   void proj(Json &o) const
   {
+    Json mem = Json::array();
     if (!arr) {
       o.set("size", j3(vec3i(0)));
       o.set("n", 0);
       o.set("dump", Json::array());
+      o.set("mem", mem);
       return;
     }
-    describe(*arr, o, "size", "n", "dump", nullptr);
+    table(*arr, o, "size", "n", "dump");
+    // the raw content of the external memory, in memory order
+    if (ext)
+      for (size_t k = 0; k < ext->size(); ++k) mem.push(E::from((*ext)[k]));
+    o.set("mem", mem);
   }
 
-  IntArr view(const std::string &a, const Json &arg)
+  Arr view(const std::string &a, const Json &arg)
   {
     // one live view per parameter tuple (the probe coordinates are not parameters of the view)
     std::string key = a;
@@ -471,33 +596,110 @@ struct World
       if (arg.o[i].first != "probes") key += arg.o[i].first + arg.o[i].second.dump();
     auto it = views.find(key);
     if (it != views.end()) return it->second;
-    IntArr base = arr;
-    IntArr v;
-    if (a == "ViewShift") v = std::make_shared<IndexShiftedArray3D<int>>(base, v3i(arg["s"]));
-    else if (a == "ViewSub") v = std::make_shared<SubBoxArray3D<int>>(base, box3i(v3i(arg["lo"]), v3i(arg["hi"])));
+    Arr base = arr;
+    Arr v;
+    if (a == "ViewShift") v = std::make_shared<IndexShiftedArray3D<T>>(base, v3i(arg["s"]));
+    else if (a == "ViewSub") v = std::make_shared<SubBoxArray3D<T>>(base, box3i(v3i(arg["lo"]), v3i(arg["hi"])));
     else {
-      std::vector<IntArr> s;
+      std::vector<Arr> s;
       const vec3i d = arr->size();
       for (size_t i = 0; i < arg["ps"].size(); ++i) {
         const int p = (int)arg["ps"][i].num();
-        s.push_back(std::make_shared<SubBoxArray3D<int>>(base, box3i(vec3i(0, 0, p), vec3i(d.x, d.y, p + 1))));
+        s.push_back(std::make_shared<SubBoxArray3D<T>>(base, box3i(vec3i(0, 0, p), vec3i(d.x, d.y, p + 1))));
       }
-      v = std::make_shared<MultiSliceArray3D<int>>(s);
+      v = std::make_shared<MultiSliceArray3D<T>>(s);
     }
     views[key] = v;
     return v;
+  }
+
+  void accStep(const Json &arg, Json &o, std::true_type)
+  {
+    if (!accView) accView = std::make_shared<Array3DAccessor<T, double>>(Arr(arr));
+    describe(*accView, o, "vsize", "vn", "table", "vrange");
+    Json out = Json::array();
+    for (size_t k = 0; k < arg["probes"].size(); ++k) out.push((long long)accView->get(v3i(arg["probes"][k])));
+    o.set("outside", out);
+  }
+  void accStep(const Json &, Json &o, std::false_type) { o.set("error", "no accessor for this element type"); }
+
+  Json step(const std::string &a, const Json &arg) override
+  {
+    Json o = Json::object();
+    if (a == "New") {
+      const vec3i d = v3i(arg["d"]);
+      views.clear();
+      accView.reset();
+      ext.reset();
+      if (arg["mode"].str() == "ext") {
+        ext = std::make_shared<std::vector<T>>();
+        for (size_t k = 0; k < arg["mem"].size(); ++k) ext->push_back(E::to(arg["mem"][k].num()));
+        arr = std::make_shared<ActualArray3D<T>>(d, (void *)ext->data());
+      } else {
+        arr = std::make_shared<ActualArray3D<T>>(d);
+        arr->clear(E::to(arg["mem"][(size_t)0].num()));
+      }
+    } else if (!arr) {
+      o.set("error", "no array");
+    } else if (a == "Set") {
+      arr->set(v3i(arg["c"]), E::to(arg["v"].num()));
+    } else if (a == "Clear") {
+      arr->clear(E::to(arg["v"].num()));
+    } else if (a == "Poke") {
+      // the user writes the external memory directly
+      if (ext) (*ext)[(size_t)arg["o"].num()] = E::to(arg["v"].num());
+      else o.set("error", "no external memory");
+    } else if (a == "Get") {
+      o.set("v", E::from(arr->get(v3i(arg["c"]))));
+    } else if (a == "Range") {
+      RangeOf<T, E::arith>::region(*arr, v3i(arg["lo"]), v3i(arg["hi"]), o, "range");
+    } else if (a == "RangeWhole") {
+      RangeOf<T, E::arith>::whole(*arr, o, "range");
+    } else if (a == "ViewShift" || a == "ViewSub" || a == "ViewSlices") {
+      Arr v = view(a, arg);
+      table(*v, o, "vsize", "vn", "table");
+      RangeOf<T, E::arith>::whole(*v, o, "vrange");
+      Json out = Json::array();
+      for (size_t k = 0; k < arg["probes"].size(); ++k) out.push(E::from(v->get(v3i(arg["probes"][k]))));
+      o.set("outside", out);
+    } else if (a == "ViewAcc") {
+      accStep(arg, o, std::integral_constant<bool, E::arith>());
+    } else {
+      o.set("error", "unknown action " + a);
+    }
+    proj(o);
+    return o;
+  }
+};
+
+struct World
+{
+  std::unique_ptr<IWorld> w;
+
+  World(const Json &hist)
+  {
+    const std::string v = hist.has("variant") ? hist["variant"].str() : "i32";
+    if (v == "u8") w.reset(new TWorld<unsigned char>());
+    else if (v == "i16") w.reset(new TWorld<short>());
+    else if (v == "i64") w.reset(new TWorld<long long>());
+    else if (v == "f32") w.reset(new TWorld<float>());
+    else if (v == "f64") w.reset(new TWorld<double>());
+    else if (v == "vec3f") w.reset(new TWorld<vec3f>());
+    else if (v == "b3") w.reset(new TWorld<B3>());
+    else if (v == "b24") w.reset(new TWorld<B24>());
+    else w.reset(new TWorld<int>());
   }
 
   Json step(const Json &act)
   {
     const std::string &a = act["a"].str();
     const Json &arg = act["arg"];
-    Json o = Json::object();
     // one-shot functional cases
     if (a == "Seq2") return doSeq<2>(arg);
     if (a == "Seq3") return doSeq<3>(arg);
     if (a == "Arr3") return doArr3(arg);
     if (a == "ForEach") return doForEach(arg);
+    if (a == "Interleave3") return doInterleave3(arg);
     if (a == "BigSeq3") return doBigSeq3(arg);
     if (a == "BigSeq2") return doBigSeq2(arg);
     if (a == "BigIter3") return doBigIter3(arg);
@@ -506,47 +708,7 @@ struct World
     if (a == "Actual") return doView(arg, true);
     if (a == "Ranges") return doRanges(arg);
     // the state machine
-    if (a == "New") {
-      const vec3i d = v3i(arg["d"]);
-      views.clear();
-      accView.reset();
-      if (arg["mode"].str() == "ext") {
-        ext = std::make_shared<std::vector<int>>();
-        for (size_t k = 0; k < arg["mem"].size(); ++k) ext->push_back((int)arg["mem"][k].num());
-        arr = std::make_shared<ActualArray3D<int>>(d, (void *)ext->data());
-      } else {
-        arr = std::make_shared<ActualArray3D<int>>(d);
-        arr->clear((int)arg["mem"][(size_t)0].num());
-      }
-    } else if (!arr) {
-      o.set("error", "no array");
-    } else if (a == "Set") {
-      arr->set(v3i(arg["c"]), (int)arg["v"].num());
-    } else if (a == "Clear") {
-      arr->clear((int)arg["v"].num());
-    } else if (a == "Get") {
-      o.set("v", (long long)arr->get(v3i(arg["c"])));
-    } else if (a == "Range") {
-      o.set("range", rangeJson(arr->getValueRange(v3i(arg["lo"]), v3i(arg["hi"]))));
-    } else if (a == "RangeWhole") {
-      o.set("range", rangeJson(arr->getValueRange()));
-    } else if (a == "ViewShift" || a == "ViewSub" || a == "ViewSlices") {
-      IntArr v = view(a, arg);
-      describe(*v, o, "vsize", "vn", "table", "vrange");
-      Json out = Json::array();
-      for (size_t k = 0; k < arg["probes"].size(); ++k) out.push((long long)v->get(v3i(arg["probes"][k])));
-      o.set("outside", out);
-    } else if (a == "ViewAcc") {
-      if (!accView) accView = std::make_shared<Array3DAccessor<int, double>>(IntArr(arr));
-      describe(*accView, o, "vsize", "vn", "table", "vrange");
-      Json out = Json::array();
-      for (size_t k = 0; k < arg["probes"].size(); ++k) out.push((long long)accView->get(v3i(arg["probes"][k])));
-      o.set("outside", out);
-    } else {
-      o.set("error", "unknown action " + a);
-    }
-    proj(o);
-    return o;
+    return w->step(a, arg);
   }
 };
 
